@@ -464,14 +464,26 @@ w('''// The contract object of an ERC-20 precompile: built with an EMPTY decode 
 //@   modifies nothing
 //@   ensures[C10.contract_object] typeof(c) == type(*erc20CustomPrecompiledContract) && fresh(payload(c)) && unbox(c, type(*erc20CustomPrecompiledContract)).cacheErc20Metadata == nil && unbox(c, type(*erc20CustomPrecompiledContract)).metadata.TypedMeta == metadata.TypedMeta && unbox(c, type(*erc20CustomPrecompiledContract)).metadata.Name == metadata.Name && unbox(c, type(*erc20CustomPrecompiledContract)).keeper.storeKey == keeper.storeKey && unbox(c, type(*erc20CustomPrecompiledContract)).keeper.bankKeeper == keeper.bankKeeper
 //@   ensures[C10.eleven_methods] len(unbox(c, type(*erc20CustomPrecompiledContract)).executors) == 11
+//@   ensures[C17.erc20_object_keeps_record] unbox(c, type(*erc20CustomPrecompiledContract)) != nil && unbox(c, type(*erc20CustomPrecompiledContract)).metadata.CustomPrecompiledType == metadata.CustomPrecompiledType && bytes(unbox(c, type(*erc20CustomPrecompiledContract)).metadata.Address) == bytes(metadata.Address) && len(unbox(c, type(*erc20CustomPrecompiledContract)).metadata.Address) == len(metadata.Address) && unbox(c, type(*erc20CustomPrecompiledContract)).metadata.Disabled == metadata.Disabled && (forall j int :: (0 <= j && j < 11) ==> unbox(c, type(*erc20CustomPrecompiledContract)).executors[j] != nil)
 //@   panics never
 
 // NewCustomPrecompiledContract: a record of type 1 / 2 / 3 gives the ERC-20 / staking / bech32 contract object; any other
 // type panics (no contract object exists for an unknown type).
 //@ func NewCustomPrecompiledContract(metadata cpctypes.CustomPrecompiledContractMeta, keeper Keeper) (c CustomPrecompiledContractI)
+//@   modifies nothing
 //@   ensures[C17.contract_of_type] (metadata.CustomPrecompiledType == 1 ==> typeof(c) == type(*erc20CustomPrecompiledContract)) && (metadata.CustomPrecompiledType == 2 ==> typeof(c) == type(*stakingCustomPrecompiledContract)) && (metadata.CustomPrecompiledType == 3 ==> typeof(c) == type(*bech32CustomPrecompiledContract))
 //@   ensures[C17.known_types_only] 1 <= metadata.CustomPrecompiledType && metadata.CustomPrecompiledType <= 3
 ''')
+# the contract object carries the record it was built from, unchanged, and a non-empty list of non-nil executors
+def OBJ_KEEPS(c, T, m):
+    u = f'unbox({c}, type(*{T}))'
+    return f'(typeof({c}) == type(*{T}) ==> ({u} != nil && {u}.metadata.CustomPrecompiledType == {m}.CustomPrecompiledType && bytes({u}.metadata.Address) == bytes({m}.Address) && len({u}.metadata.Address) == len({m}.Address) && {u}.metadata.Name == {m}.Name && {u}.metadata.TypedMeta == {m}.TypedMeta && {u}.metadata.Disabled == {m}.Disabled && len({u}.executors) > 0 && (forall j int :: (0 <= j && j < len({u}.executors)) ==> {u}.executors[j] != nil)))'
+CPC_TYPES = ['erc20CustomPrecompiledContract', 'stakingCustomPrecompiledContract', 'bech32CustomPrecompiledContract']
+for T in CPC_TYPES:
+    w(f'//@   ensures[C17.object_keeps_record_{T[:-len("CustomPrecompiledContract")]}] {OBJ_KEEPS("c", T, "metadata")}')
+w('//@   ensures c != nil && fresh(payload(c))')
+w('//@   panics[C17.unknown_type_panics] only_if !(1 <= metadata.CustomPrecompiledType && metadata.CustomPrecompiledType <= 3)')
+w()
 
 # ---- read-only staking executors (C12 clause (b)) ---------------------------------------------------------------
 GHOST_WORLD = ['bankBal', 'bankSupply', 'authVersion', 'evlog', 'kvHas', 'kvVal', 'acctSeq', 'acctExists', 'stakingVersion', 'distVersion'] + LOGVARS[:-1]
